@@ -338,6 +338,7 @@ int main(int argc, char **argv) {
     CDashInfo cdash;
     memset(&cdash, 0, sizeof cdash);
     if (!strcmp(reporter_kind, "text")) { reporter = create_text_reporter(); set_reporter_options(reporter, &topt); }
+    else if (!strcmp(reporter_kind, "textc")) { reporter = create_text_reporter(); topt.use_colours = 1; set_reporter_options(reporter, &topt); }      /* as cgreen-runner on a terminal */
     else if (!strcmp(reporter_kind, "quiet")) { reporter = create_text_reporter(); topt.quiet_mode = 1; set_reporter_options(reporter, &topt); }
     else if (!strcmp(reporter_kind, "cute")) reporter = create_cute_reporter();
     else if (!strcmp(reporter_kind, "xml")) reporter = create_xml_reporter("xml");
